@@ -261,6 +261,11 @@ def simplify_atom(atom):
             return t[2]
         if t[0] in ("is", "eq", "lt", "empty", "not"):
             return simplify_atom(t) if t[0] != "not" else ("not", t[1])
+        if t[0] == "quant" and t[1] == "any" and len(t) == 4:
+            # any(it, P)  <=>  !all(it, !P): one canonical quantifier
+            p_ = t[3]
+            neg = p_[1] if p_[0] == "not" else ("not", p_)
+            return ("not", ("bool", ("quant", "all", t[2], neg)))
         return atom
     return atom
 
